@@ -58,7 +58,7 @@ fn table() -> Vec<Entry> {
         Entry { def: "merc lat_ts=56", writes: xy, deps: [0b01, 0b10, 0, 0], deps_inv: None, inside: inside_geo.clone(), outside_fwd: vec![], outside_inv: vec![], invertible: true },
         Entry { def: "webmerc", writes: xy, deps: [0b01, 0b10, 0, 0], deps_inv: None, inside: inside_geo.clone(), outside_fwd: vec![], outside_inv: vec![], invertible: true },
         plane("btmerc lon_0=9", inside_geo.clone(), vec![], vec![]),
-        plane("omerc lonc=12 latc=55 alpha=30 gamma_c=30 k_0=0.9999", vec![geo(12., 55., 100., 2020.5), geo(13., 54., 0., 2000.)], vec![], vec![]),
+        plane("omerc lonc=12 latc=55 alpha=30 gamma_c=30 k_0=0.9999", vec![geo(12., 55., 100., 2020.5), geo(13., 54., 0., 2000.), geo(12., 90., 0., 2000.), geo(-40., -90., 0., 2000.)], vec![], vec![]),
         plane("somerc lat_0=46.9524055555556 lon_0=7.43958333333333 k_0=1 x_0=2600000 y_0=1200000", vec![geo(8., 47., 400., 2020.5), geo(6.5, 46.1, 0., 2000.)], vec![], vec![]),
         Entry { def: "cart", writes: xyz, deps: [0b011, 0b111, 0b111, 0], deps_inv: Some([0b111, 0b111, 0b110, 0]), inside: inside_geo.clone(), outside_fwd: vec![], outside_inv: vec![], invertible: true },
         // (with a point on the polar axis, where the conversion takes a branch of its own)
